@@ -90,6 +90,30 @@ Additions for data.py (ScreenSubset / Plate / the view-producing methods of Scre
   cfg["inherits"]     [(subclass, base, [method names])]: checked, not translated - the class `subclass` has the single
                       base `base` and defines none of the named methods itself, so that calling them on (constructing) a
                       `subclass` runs the translated methods of `base`; anything else is refused
+Additions for retrospective.py / data.py (reveal_plates, mask_screen, unmask_screen, Screen.set_observed, Screen.__init__):
+  cfg["kwcalls"]      {callee name: (Gallina template over the parameter names, result type, [(parameter, type, default)])}:
+                      a call `F(k1=e1, ..., kn=en)` of a declared callee with keyword arguments only.  Every keyword must be a
+                      declared parameter; a declared parameter the call does not pass takes its declared default (a Gallina
+                      term; default None = required, its absence is refused); a passed argument is coerced to the declared type
+                      (an `opt T` parameter receives `Some e`).  Arguments are evaluated in source order.  Positional arguments,
+                      `*args`, `**kwargs` and undeclared keywords are refused.  A template starting with `!` denotes a
+                      `result T` (the call may raise).  WHICH arguments a call site passes is thus read from the source; the
+                      template only says what the callee does with a complete argument list.
+  cfg["mask_store"]   {"array": template, "scalar": template} over {a} {m} {v}, each denoting a `result (list T)`:
+                      `a[m] = v` with a : list T a bound variable and m : list bool (numpy boolean-mask assignment) is
+                      `a <- template`; "array" when v : list T, "scalar" when v : T (broadcast of one value).  The templates
+                      are trusted (one numpy call: which positions are written, how the values are consumed, what raises).
+  cfg["body_slice"]   (first, last): translate only the run of TOP-LEVEL statements of the function body from the statement
+                      whose first source line (ast.unparse) is `first` to the one whose first line is `last`, inclusive (each
+                      must occur exactly once, in this order).  The Gallina parameters are the variables live where the run
+                      starts (cfg["live_vars"] names those that are Python locals, so that they get the identifier suffix);
+                      a variable the run reads that is not a parameter is refused as unbound.  Statements outside the run are
+                      NOT looked at: the link covers the run only.
+  cfg["pydefaults"]   the default values of the Python signature, as source text, checked like cfg["pyparams"]
+  cfg["narrow_none"]  True: `if x is not None: A else: B` (or `if x is None: B else: A`) with x bound at `opt T` and declared
+                      in cfg["vars"] at T is `match x with Some v => let x := v in A | None => B end`: inside A, x has type T.
+                      Variables both branches leave bound must end them at the same type (refused otherwise), which is their
+                      type afterwards - so an Optional argument that every path replaces by a value is a T after the `if`.
 """
 import ast
 
@@ -198,6 +222,9 @@ class Tr:
                             {h: parse_type(t) for h, t in (x[4] if len(x) > 4 else {}).items()})
                            for x in cfg.get("stmt_prims", [])]
         self.globals = set(rn(g) for g in cfg.get("globals", []))
+        # keyword-argument calls: {callee: (template, result type, [(parameter, type, default term or None)])}
+        self.kwcalls = {rn(f): (t, parse_type(ty), [(p, parse_type(pt), d) for p, pt, d in ps])
+                        for f, (t, ty, ps) in cfg.get("kwcalls", {}).items()}
         # the exception monad: by default Lib/Sexp.result with integer tags; a configuration may name another one
         # (type constructor, bind notation keyword, unit, fold, checked unwrap) whose errors carry data
         m = dict(type="result", bind="dor", ok="Ok", fold="res_fold", unwrap="unwrap")
@@ -277,6 +304,8 @@ class Tr:
                     a, at = self.expr(kw.value, env, hoist)
                     args[kw.arg] = self.need(a, at, argtys[kw.arg], hoist) if kw.arg in argtys else a
             return "(" + tmpl.format(**args) + ")", ty
+        if isinstance(e, ast.Call) and isinstance(e.func, ast.Name) and e.func.id in self.kwcalls:
+            return self.kwcall(e, env, hoist)
         if isinstance(e, ast.Attribute) and e.attr in self.fields:
             owner, fty, getter, _ = self.fields[e.attr]
             o, ot = self.expr(e.value, env, hoist)
@@ -385,6 +414,35 @@ class Tr:
                 raise Unsupported("chained comparison: " + ast.unparse(e))
             return self.compare(e.left, e.ops[0], e.comparators[0], env, hoist), ("bool",)
         raise Unsupported("expression: " + ast.unparse(e))
+
+    def kwcall(self, e, env, hoist):
+        """cfg["kwcalls"]: F(k1=e1, ..., kn=en) -> the callee's template over its full parameter list; a parameter the call
+        site does not pass takes its declared default"""
+        tmpl, ty, params = self.kwcalls[e.func.id]
+        if e.args:
+            raise Unsupported("positional argument in a keyword call: " + ast.unparse(e)[:80])
+        declared = {p: pt for p, pt, _ in params}
+        given = {}
+        for kw in e.keywords:      # source order = Python's evaluation order
+            if kw.arg is None:
+                raise Unsupported("**kwargs in a keyword call: " + ast.unparse(e)[:80])
+            if kw.arg not in declared or kw.arg in given:
+                raise Unsupported("keyword %s is not a declared parameter of %s" % (kw.arg, e.func.id))
+            a, at = self.expr(kw.value, env, hoist)
+            given[kw.arg] = self.need(a, at, declared[kw.arg], hoist)
+        args = {}
+        for p, pt, default in params:
+            if p in given:
+                args[p] = given[p]
+            elif default is None:
+                raise Unsupported("required argument %s of %s is not passed" % (p, e.func.id))
+            else:
+                args[p] = default
+        if tmpl.startswith("!"):
+            n = self.new("r")
+            hoist.append((n, tmpl[1:].format(**args)))
+            return n, ty
+        return "(" + tmpl.format(**args) + ")", ty
 
     def need(self, term, have, want, hoist):
         """coerce a term of type [have] to type [want]"""
@@ -681,6 +739,18 @@ class Tr:
             if isinstance(tgt, ast.Subscript) and isinstance(tgt.value, ast.Name):      # d[k] = v on a `dict T`
                 d = tgt.value.id
                 dt = env.get(d)
+                if dt is not None and dt[0] == "list" and self.cfg.get("mask_store") is not None and self.M["type"] == "result":
+                    # a[m] = v with m a boolean mask (cfg["mask_store"]); any other subscript falls through
+                    probe = []
+                    mm, mt = self.expr(tgt.slice, env, probe)
+                    if mt == ("list", ("bool",)):
+                        hoist.extend(probe)
+                        vv, vt = self.expr(st.value, env, hoist)
+                        if vt == dt:
+                            term = self.cfg["mask_store"]["array"].format(a=d, m=mm, v=vv)
+                        else:
+                            term = self.cfg["mask_store"]["scalar"].format(a=d, m=mm, v=self.need(vv, vt, dt[1], hoist))
+                        return self.bind_hoist(hoist, "%sdor %s <- %s;\n" % (ind, d, term), ind) + self.block(rest, env, k, ind)
                 if dt is not None and dt[0] == "list" and self.cfg.get("index_error") is not None and self.M["type"] == "result":
                     # a[i] = v on a list / numpy array: IndexError (tag cfg["index_error"]) outside -len..len-1
                     ii, it = self.expr(tgt.slice, env, hoist)
@@ -790,6 +860,8 @@ class Tr:
             env2[x] = ty
             return "%slet %s : %s := match %s with Some v__ => v__ | None => %s end in\n" % (ind, x, coq_type(ty), x, v) \
                 + self.block(rest, env2, k, ind)
+        if isinstance(st, ast.If) and self.narrow_test(st, env) is not None:
+            return self.narrow_if(st, rest, env, k, ind)
         if isinstance(st, ast.If):
             c = self.cond(st.test, env, hoist)
             bj, oj = self.always_jumps(st.body), self.always_jumps(st.orelse)
@@ -902,6 +974,62 @@ class Tr:
             v = self.need(v, vt, fty, hoist)
         txt = "%slet %s : %s := %s in\n" % (ind, x, coq_type(owner), setter.format(obj=x, val=v))
         return self.bind_hoist(hoist, txt, ind) + self.block(rest, env, k, ind)
+    def narrow_test(self, st, env):
+        """cfg["narrow_none"]: (x, T, body when x is not None, body when x is None) if [st] tests exactly `x is None` /
+        `x is not None` for a variable bound at opt T and declared at T"""
+        t = st.test
+        if not self.cfg.get("narrow_none") or self.M["type"] != "result":
+            return None
+        if not (isinstance(t, ast.Compare) and len(t.ops) == 1 and isinstance(t.ops[0], (ast.Is, ast.IsNot)) and isinstance(t.left, ast.Name)
+                and isinstance(t.comparators[0], ast.Constant) and t.comparators[0].value is None):
+            return None
+        x = t.left.id
+        if not (x in env and env[x][0] == "opt" and self.vars.get(x) == env[x][1]):
+            return None
+        some, none = (st.orelse, st.body) if isinstance(t.ops[0], ast.Is) else (st.body, st.orelse)
+        return x, env[x][1], list(some), list(none)
+
+    def narrow_if(self, st, rest, env, k, ind):
+        """match x with Some v => let x := v in <x is not None> | None => <x is None> end"""
+        x, ty, some, none = self.narrow_test(st, env)
+        v = self.new("v")
+        env_some = dict(env)
+        env_some[x] = ty
+        head = "%s  | Some %s =>\n%s    let %s : %s := %s in\n" % (ind, v, ind, x, coq_type(ty), v)
+        sj, nj = self.always_jumps(some), self.always_jumps(none)
+        if sj or nj:
+            ts = self.block(some + ([] if sj else rest), env_some, k, ind + "    ")
+            tn = self.block(none + ([] if nj else rest), env, k, ind + "    ")
+            return "%smatch %s with\n%s%s%s  | None =>\n%s%s  end\n" % (ind, x, head, ts, ind, tn, ind)
+        if self.has_jump(some + none, (ast.Continue, ast.Return)):
+            raise Unsupported("a None test with a branch that may, but need not, continue/return: " + ast.unparse(st.test))
+        allv = self.assigned(some + none)
+        vs = [w for w in allv if w in env and env[w] != ("unit",)]
+        dropped = [w for w in allv if w not in vs]
+        ends = []
+
+        def ret(env2, jump=None):
+            if jump is not None:
+                raise Unsupported("jump in if")
+            ends.append(env2)
+            return "%s      %s %s\n" % (ind, self.M["ok"], tuple_term(vs))
+
+        ts = self.block(some, env_some, ret, ind + "      ")
+        tn = self.block(none, env, ret, ind + "      ")
+        env_after = dict(env)
+        for w in vs:
+            tys = set(e2[w] for e2 in ends)
+            if len(tys) != 1:
+                raise Unsupported("variable %s leaves the branches of `%s` at different types" % (w, ast.unparse(st.test)))
+            env_after[w] = tys.pop()
+        # the bind notation takes a pattern (no quote), unlike `fun`
+        pat = "_" if not vs else vs[0] if len(vs) == 1 else "(" + ", ".join(vs) + ")"
+        txt = "%s%s %s <- (match %s with\n%s%s%s  | None =>\n%s%s  end);\n" % (ind, self.M["bind"], pat, x, head, ts, ind, tn, ind)
+        for w in dropped:
+            txt += "%slet %s := tt in\n" % (ind, w)   # poison: a later read is a type error
+            env_after[w] = ("unit",)
+        return txt + self.block(rest, env_after, k, ind)
+
     def default_idiom(self, st, env):
         """(x, T) if [st] is `if x is None: x = e` with x bound at type opt T and declared in cfg["vars"] at type T"""
         t = st.test
@@ -1098,6 +1226,8 @@ class Tr:
         pyparams = [a.arg for a in f.args.args]
         if pyparams != cfg["pyparams"]:
             raise Unsupported("parameters of %s changed: %r" % (f.name, pyparams))
+        if "pydefaults" in cfg and [ast.unparse(d) for d in f.args.defaults] != cfg["pydefaults"]:
+            raise Unsupported("default values of %s changed: %r" % (f.name, [ast.unparse(d) for d in f.args.defaults]))
         for unused in cfg.get("unused_params", []):
             for node in ast.walk(f):
                 if isinstance(node, ast.Name) and node.id == unused:
@@ -1165,6 +1295,8 @@ def rename_cfg(cfg):
     c["unused_params"] = [rn(x) for x in cfg.get("unused_params", [])]
     attr = set(cfg.get("attr_vars", {}).values())
     c["params"] = [(rn(n) if (n in cfg["pyparams"] or n in attr) else n, t) for n, t in cfg["params"]]
+    if cfg.get("live_vars"):     # parameters of a body slice that are Python locals
+        c["params"] = [(rn(n) if n in cfg["live_vars"] else n2, t) for (n, t), (n2, _) in zip(cfg["params"], c["params"])]
     c["predefine"] = {rn(k): v for k, v in cfg.get("predefine", {}).items()}
     c["match_class"] = {rn(k): v for k, v in cfg.get("match_class", {}).items()}
     c["range_like"] = tuple(rn(x) for x in cfg.get("range_like", ("range",)))
@@ -1217,6 +1349,14 @@ def check_inherits(tree, cfg):
         own = [n.name for n in cls[0].body if isinstance(n, ast.FunctionDef) and n.name in names]
         if own:
             raise Unsupported("class %s defines its own %s" % (sub, ", ".join(own)))
+def slice_body(f, markers):
+    """cfg["body_slice"]: the top-level statements of f from the one whose first line is markers[0] to the one whose first
+    line is markers[1], inclusive"""
+    first, last = markers
+    heads = [ast.unparse(st).split("\n")[0] for st in f.body]
+    if heads.count(first) != 1 or heads.count(last) != 1 or heads.index(first) > heads.index(last):
+        raise Unsupported("body slice of %s not found exactly once: %r .. %r" % (f.name, first, last))
+    return f.body[heads.index(first):heads.index(last) + 1]
 
 
 def translate(source_text, cfg):
@@ -1233,6 +1373,8 @@ def translate(source_text, cfg):
         cfg["vars"] = dict(cfg["vars"], yielded="list " + cfg["generator"])
         cfg["predefine"] = dict(cfg.get("predefine", {}), yielded="[]")
         cfg["implicit_return"] = "{yielded}"
+    if cfg.get("body_slice"):
+        f.body = slice_body(f, cfg["body_slice"])      # before renaming: the markers are source text
     f = AnnToAssign().visit(f)
     if cfg.get("attr_vars"):
         f = AttrVars(cfg["attr_vars"]).visit(f)
